@@ -493,3 +493,115 @@ func TestC17HandlerLayouts(t *testing.T) {
 	}
 	rec.ExhaustiveSubspace(fmt.Sprintf("handler verdict × 4 layouts for every leaf of trees of sizes %v", sizes))
 }
+
+// ---- derivations do not influence each other; verification is safe to run concurrently ----------
+
+// TestC17Sequences: a derivation must be a function of its own arguments only. Sequences of
+// related inputs are derived in one process - ids and denoms whose decimal / byte renderings
+// concatenate to the same text ((2,"uinit1") and (12,"uinit")), shared prefixes, the same pair
+// before and after others - and every single result is compared with the independent implementation.
+func TestC17Sequences(t *testing.T) {
+	rec := evid.For("C17")
+	runRapid(t, 1500, 15000, func(rt *rapid.T) {
+		c := rec.Begin()
+		c.Class("sequence")
+		base := rapid.SampledFrom([]string{"uinit", "uusdc", "ibc/ABCDEF", "x", "token0", "a1b"}).Draw(rt, "base")
+		type pair struct {
+			id    uint64
+			denom string
+		}
+		var seq []pair
+		n := rapid.IntRange(2, 6).Draw(rt, "n")
+		for i := 0; i < n; i++ {
+			digits := rapid.StringMatching("[1-9][0-9]{0,2}").Draw(rt, "digits")
+			id := uint64(rapid.IntRange(0, 99).Draw(rt, "id"))
+			// (id, base+digits) and (digits‖id as a number, base): the renderings "base+digits+id" coincide
+			var shifted uint64
+			fmt.Sscanf(digits+fmt.Sprint(id), "%d", &shifted)
+			seq = append(seq, pair{id, base + digits}, pair{shifted, base})
+		}
+		if rapid.Bool().Draw(rt, "again") {
+			seq = append(seq, seq[0], seq[1])
+		}
+		for i, p := range seq {
+			if got, want := ophosttypes.L2Denom(p.id, p.denom), ref.L2Denom(p.id, p.denom); got != want {
+				rt.Fatalf("derivation %d of the sequence %v: L2Denom(%d,%q) = %s, independent implementation %s (the result depends on earlier derivations)", i, seq, p.id, p.denom, got, want)
+			}
+			if got, want := ophosttypes.BridgeAddress(p.id), ref.BridgeAddress(p.id); !bytes.Equal(got, want) {
+				rt.Fatalf("derivation %d of the sequence: BridgeAddress(%d) = %x, independent implementation %x", i, p.id, got, want)
+			}
+			l1, l2 := ophosttypes.GenerateWithdrawalHash(p.id, uint64(i), p.denom, base, p.denom, p.id), ref.Leaf(p.id, uint64(i), p.denom, base, p.denom, p.id)
+			if l1 != l2 {
+				rt.Fatalf("derivation %d of the sequence: leaf differs from the independent implementation", i)
+			}
+		}
+		c.NonTrivial()
+		c.Shape(fmt.Sprintf("seq/%s/%d/%v", base, len(seq), seq[0]))
+		c.Sample(func() interface{} { return map[string]interface{}{"kind": "sequence of related derivations", "pairs": fmt.Sprint(seq)} })
+		c.Done()
+	})
+}
+
+// TestC17Concurrent: several goroutines verify their own proofs at the same time (as CheckTx,
+// simulation and block execution do); every result must equal the independent implementation.
+// A schedule-dependent failure has no shrunk input: the failing worker's inputs are printed.
+func TestC17Concurrent(t *testing.T) {
+	rec := evid.For("C17")
+	const workers, rounds = 8, 400
+	type job struct {
+		leaf  [32]byte
+		items [][]byte
+		want  [32]byte
+	}
+	jobs := make([][]job, workers)
+	for w := 0; w < workers; w++ {
+		for r := 0; r < rounds; r++ {
+			var j job
+			for i := range j.leaf {
+				j.leaf[i] = byte(w*31 + r*7 + i)
+			}
+			n := 1 + (w+r)%9
+			for k := 0; k < n; k++ {
+				it := make([]byte, 32)
+				for i := range it {
+					it[i] = byte(w*13 + r*5 + k*3 + i*i)
+				}
+				j.items = append(j.items, it)
+			}
+			j.want = ref.RootFromProof(j.leaf, j.items)
+			jobs[w] = append(jobs[w], j)
+		}
+	}
+	errs := make(chan string, workers)
+	done := make(chan struct{})
+	for w := 0; w < workers; w++ {
+		go func(w int) {
+			defer func() { done <- struct{}{} }()
+			for r, j := range jobs[w] {
+				if got := ophosttypes.GenerateRootHashFromProofs(j.leaf, j.items); got != j.want {
+					errs <- fmt.Sprintf("worker %d round %d: root %x, independent implementation %x (leaf %x, %d items)", w, r, got, j.want, j.leaf, len(j.items))
+					return
+				}
+				if got := ophosttypes.GenerateOutputRoot(byte(r), j.leaf[:], j.want[:]); got != ref.OutputRoot(byte(r), j.leaf[:], j.want[:]) {
+					errs <- fmt.Sprintf("worker %d round %d: output root differs", w, r)
+					return
+				}
+			}
+		}(w)
+	}
+	for w := 0; w < workers; w++ {
+		<-done
+	}
+	close(errs)
+	for e := range errs {
+		caseFail(t, "concurrent", "verification under concurrency does not depend only on the bytes supplied: %s", e)
+	}
+	for w := 0; w < workers; w++ {
+		c := rec.Begin()
+		c.Class("concurrent-worker")
+		c.NonTrivial()
+		c.Shape(fmt.Sprintf("concurrent/%d", w))
+		c.Done()
+	}
+	rec.Note(fmt.Sprintf("%d goroutines x %d rounds of concurrent root / output-root computations compared with the reference", workers, rounds))
+}
